@@ -34,7 +34,7 @@ COMPONENTS = {
              'error handler', 'reference interpreter (oracle)'],
 }
 EXPECTED_PROBES = ('sink_target', 'second_request', 'dependent_mode', 'independent_mode', 'unrouted', 'complete_reached', 'raise_in_response',
-                   'handler_called', 'hook_raised', 'lifespan_startup_failed', 'lifespan_shutdown_failed',
+                   'handler_called', 'hook_raised', 'lifespan_startup_failed', 'lifespan_shutdown_failed', 'second_lifespan_cycle',
                    'asgi_stack', 'wsgi_stack')
 ASSUMPTIONS = (
     'hooks never set resp.complete (the statement does not say what that would mean)',
@@ -324,6 +324,81 @@ class _LEnv(Env):
         return self.conn.actions(3, 3, 3)
 
 
+def _lifespan_cycle(ctx, app, comps, events, fail, trace, cycle):
+    ch = ctx.ch
+    env = _LEnv()
+    loop = SimLoop(ch, env, max_steps=3000)
+    sim = _Sim(loop, ch, ctx)
+    scope = {'type': 'lifespan', 'asgi': {'version': '3.0', 'spec_version': '2.0'}}
+    script = [{'type': 'lifespan.' + e} for e in events]
+    conn = Conn(sim, 'lifespan', scope, script, LifespanMonitor(),
+                recv_suspends=bool(ch.draw(2, 'recv_suspends')),
+                send_suspends=bool(ch.draw(2, 'send_suspends')))
+    env.conn = conn
+    result = {}
+
+    async def driver():
+        try:
+            await app(scope, conn.receive, conn.send)
+        except Exception as ex:
+            result['exc'] = ex
+
+    quiescent_ok = False
+    try:
+        task = loop.run_main(driver())
+        finished = task.done()
+        quiescent_ok = True
+    except SimBudgetExceeded:
+        finished = False
+    ctx.steps += loop.steps
+    ctx.sched_key = (ctx.sched_key or '') + 'L' + loop.sig()
+    try:
+        loop.drain()
+    finally:
+        loop.close()
+    # reference
+    want_trace, want_events = [], []
+    stopped = False
+    for i, c in enumerate(comps):
+        if c['startup']:
+            want_trace.append('%d.startup' % i)
+            if fail.get((i, 'startup')):
+                want_events.append('lifespan.startup.failed')
+                stopped = True
+                ctx.probe('lifespan_startup_failed')
+                break
+    if not stopped:
+        want_events.append('lifespan.startup.complete')
+        if 'shutdown' in events:
+            for i in range(len(comps) - 1, -1, -1):
+                if comps[i]['shutdown']:
+                    want_trace.append('%d.shutdown' % i)
+                    if fail.get((i, 'shutdown')):
+                        want_events.append('lifespan.shutdown.failed')
+                        stopped = True
+                        ctx.probe('lifespan_shutdown_failed')
+                        break
+            if not stopped:
+                want_events.append('lifespan.shutdown.complete')
+    got_events = [e.get('type') for e in conn.monitor.events]
+    ctx.event('lifespan', trace, got_events)
+    for oid, msg in conn.monitor.violations:
+        ctx.violate(oid, msg)
+    if 'exc' in result:
+        ctx.violate('lifespan.escaped', 'exception escaped: %r' % (result['exc'],))
+    if trace != want_trace:
+        ctx.violate('lifespan.order', 'cycle %d: handlers ran as %r, expected %r (fail %r)' % (
+            cycle, trace, want_trace, sorted(fail)))
+    elif got_events != want_events:
+        ctx.violate('lifespan.events', 'server saw %r, expected %r' % (got_events, want_events))
+    # after startup.complete without a shutdown event the app legitimately waits for more events
+    if not finished and quiescent_ok:
+        waiting_ok = (not stopped and 'shutdown' not in events)
+        if not waiting_ok:
+            ctx.violate('lifespan.hang', 'lifespan callable did not return (events %r)' % (got_events,))
+    return finished
+
+
 def run_lifespan(ctx):
     ch = ctx.ch
     n = ch.draw(5, 'n_components')
@@ -370,78 +445,20 @@ def run_lifespan(ctx):
             ns['process_request'] = process_request
         mws.append(type('L%d' % i, (object,), ns)())
     app = falcon.asgi.App(middleware=mws)
-    env = _LEnv()
-    loop = SimLoop(ch, env, max_steps=3000)
-    sim = _Sim(loop, ch, ctx)
-    scope = {'type': 'lifespan', 'asgi': {'version': '3.0', 'spec_version': '2.0'}}
-    script = [{'type': 'lifespan.' + e} for e in events]
-    conn = Conn(sim, 'lifespan', scope, script, LifespanMonitor(),
-                recv_suspends=bool(ch.draw(2, 'recv_suspends')),
-                send_suspends=bool(ch.draw(2, 'send_suspends')))
-    env.conn = conn
-    result = {}
-
-    async def driver():
-        try:
-            await app(scope, conn.receive, conn.send)
-        except Exception as ex:
-            result['exc'] = ex
-
-    quiescent_ok = False
-    try:
-        task = loop.run_main(driver())
-        finished = task.done()
-        quiescent_ok = True
-    except SimBudgetExceeded:
-        finished = False
-    ctx.steps = loop.steps
-    ctx.sched_key = 'L' + loop.sig()
-    try:
-        loop.drain()
-    finally:
-        loop.close()
-    # reference
-    want_trace, want_events = [], []
-    stopped = False
-    for i, c in enumerate(comps):
-        if c['startup']:
-            want_trace.append('%d.startup' % i)
-            if fail.get((i, 'startup')):
-                want_events.append('lifespan.startup.failed')
-                stopped = True
-                ctx.probe('lifespan_startup_failed')
-                break
-    if not stopped:
-        want_events.append('lifespan.startup.complete')
-        if 'shutdown' in events:
-            for i in range(len(comps) - 1, -1, -1):
-                if comps[i]['shutdown']:
-                    want_trace.append('%d.shutdown' % i)
-                    if fail.get((i, 'shutdown')):
-                        want_events.append('lifespan.shutdown.failed')
-                        stopped = True
-                        ctx.probe('lifespan_shutdown_failed')
-                        break
-            if not stopped:
-                want_events.append('lifespan.shutdown.complete')
-    got_events = [e.get('type') for e in conn.monitor.events]
-    ctx.event('lifespan', trace, got_events)
-    for oid, msg in conn.monitor.violations:
-        ctx.violate(oid, msg)
-    if 'exc' in result:
-        ctx.violate('lifespan.escaped', 'exception escaped: %r' % (result['exc'],))
-    if trace != want_trace:
-        ctx.violate('lifespan.order', 'handlers ran as %r, expected %r (fail %r)' % (
-            trace, want_trace, sorted(fail)))
-    elif got_events != want_events:
-        ctx.violate('lifespan.events', 'server saw %r, expected %r' % (got_events, want_events))
-    # after startup.complete without a shutdown event the app legitimately waits for more events
-    if not finished and quiescent_ok:
-        waiting_ok = (not stopped and 'shutdown' not in events)
-        if not waiting_ok:
-            ctx.violate('lifespan.hang', 'lifespan callable did not return (events %r)' % (got_events,))
-    ctx.ops_done = len(trace)
-    ctx.nontrivial = bool(fail) or len(trace) >= 2
+    # a second lifespan cycle on the same app object (what test clients and reloading servers do)
+    # must run the handlers again
+    cycles = 2 if ('shutdown' in events and ch.draw(3, 'second_cycle') == 2) else 1
+    total = 0
+    for cycle in range(cycles):
+        if cycle:
+            ctx.probe('second_lifespan_cycle')
+        del trace[:]
+        finished = _lifespan_cycle(ctx, app, comps, events, fail, trace, cycle)
+        total += len(trace)
+        if not finished or ctx.verdicts:
+            break
+    ctx.ops_done = total
+    ctx.nontrivial = bool(fail) or total >= 2
 
 
 def run(ctx):
